@@ -273,6 +273,20 @@ func genC10Wide(g *Gen) {
 		}
 	}
 	g.Exhaust = append(g.Exhaust, "PathFields/raw + NewPath/rebuild: every canonical mask (h 0..32 x l 0..h) x 4-8 search-bit patterns, + masks with one hole / one extra bit")
+	// every canonical mask with ONE hole at every interior position, and with ONE extra bit at
+	// every position below the block (a self-test mutant wrong for the single mask 0xfbf00 survived the sampled holes)
+	for h := 1; h <= 32; h++ {
+		for l := 1; l <= h; l++ {
+			m := (uint64(1)<<uint(l) - 1) << uint(h-l)
+			for i := h - l + 1; i < h-1; i++ {
+				word(m&^(1<<uint(i)), "word-hole-all")
+			}
+			for i := 0; i < h-l-1; i++ {
+				word(m|1<<uint(i), "word-hole-all")
+			}
+		}
+	}
+	g.Exhaust = append(g.Exhaust, "PathFields/raw + NewPath/rebuild: every canonical mask with one hole at every interior position / one extra bit at every lower position")
 	// every 8-bit mask pattern at 4 positions (all hole structures of width 8)
 	for p := 0; p < 256; p++ {
 		for _, sh := range []uint{0, 7, 16, 24} {
